@@ -88,6 +88,8 @@ pub struct TableProvider {
     /// (the future returns Pending again after its first wake-up, as a provider that does two
     /// I/O steps per request would)
     pub two_step: Cell<bool>,
+    /// `Candidates::candidates` of some packages names a solvable twice
+    pub dup_listing: Cell<bool>,
     /// once cancellation has been signalled the provider completes no request any more
     pub freeze_on_cancel: Cell<bool>,
     /// SortProbe::DepsAbandon: one nested request has been abandoned already
@@ -118,6 +120,7 @@ impl TableProvider {
             union_iter_lower_one: Cell::new(false),
             sort_ties: Cell::new(false),
             two_step: Cell::new(false),
+            dup_listing: Cell::new(false),
             freeze_on_cancel: Cell::new(false),
             abandoned_once: Cell::new(false),
             cands_abandoned_once: Cell::new(false),
@@ -190,7 +193,7 @@ impl TableProvider {
     }
 
     pub fn candidates_of(&self, pkg: usize) -> Option<Candidates> {
-        candidates_answer(&self.u, pkg)
+        candidates_answer(&self.u, pkg, self.dup_listing.get())
     }
 
     async fn gate(&self, kind: ReqKind, key: u32) {
@@ -476,13 +479,22 @@ impl DependencyProvider for TableProvider {
 }
 
 /// The answer of the table provider to `get_candidates` (shared with the C++ side of C17).
-pub fn candidates_answer(u: &Universe, pkg: usize) -> Option<Candidates> {
+pub fn candidates_answer(u: &Universe, pkg: usize, dup_listing: bool) -> Option<Candidates> {
     let p = &u.packages[pkg];
     if p.missing {
         return None;
     }
+    // a provider that lists a solvable twice (e.g. an installed prefix concatenated with a
+    // channel): a third of the packages of a universe that has the flag repeat their first
+    // candidate at the end of the list
+    let dup = dup_listing && !p.cands.is_empty() && crate::runner::hash_of(&(&p.name, p.cands.len())) % 3 == 0;
     Some(Candidates {
-        candidates: p.cands.iter().map(|c| SolvableId(c.sid)).collect(),
+        candidates: p
+            .cands
+            .iter()
+            .map(|c| SolvableId(c.sid))
+            .chain(p.cands.iter().take(if dup { 1 } else { 0 }).map(|c| SolvableId(c.sid)))
+            .collect(),
         favored: p.favored.map(|i| SolvableId(p.cands[i].sid)),
         locked: if p.lock_gone {
             p.unlisted.last().map(|c| SolvableId(c.sid))
